@@ -21,8 +21,8 @@ Add(a, b) == AddW(a, b)
 Sub(a, b) == SubW(a, b)
 Mul(a, b) == MulW(a, b)
 Neg(a)    == NegW(a)
-Inc(a)    == IncW(a)
-Dec(a)    == DecW(a)
+IncL(a)   == IncW(a)
+DecL(a)   == DecW(a)
 
 (* ---------------------------- C02 ------------------------------------- *)
 Eq(a, b)    == a = b
@@ -127,8 +127,8 @@ IntUn(o, k, a) ==
   CASE o = "neg"  -> Neg(a)
     [] o = "pos"  -> a
     [] o = "id"   -> a
-    [] o = "inc"  -> Inc(a)
-    [] o = "dec"  -> Dec(a)
+    [] o = "inc"  -> IncL(a)
+    [] o = "dec"  -> DecL(a)
     [] o = "not"  -> NotW(a)
     [] o = "popcount"    -> NumW(PopCount(a), Len(a))
     [] o = "countl_zero" -> NumW(Clz(a), Len(a))
